@@ -935,6 +935,38 @@ def extract_meta_slots(repo):
     return out
 
 
+def extract_current_version_without_alias(repo):
+    """the library code that runs for ONE database (django_evolution/evolve/*.py, utils/evolutions.py): calls of
+    `current_version(...)` that do not say which database (`using=`) - each would read the default database's stored
+    signature while another database is being evolved"""
+    import glob
+    out = []
+    files = sorted(glob.glob(os.path.join(repo, 'django_evolution', 'evolve', '*.py'))) + \
+        [os.path.join(repo, 'django_evolution', 'utils', 'evolutions.py')]
+    for path in files:
+        tree = ast.parse(open(path).read())
+        for fn in [n for n in ast.walk(tree) if isinstance(n, ast.FunctionDef)]:
+            for n in ast.walk(fn):
+                if isinstance(n, ast.Call) and isinstance(n.func, ast.Attribute) and n.func.attr == 'current_version' and \
+                        not any(k.arg == 'using' for k in n.keywords):
+                    out.append('%s:%s' % (os.path.basename(path), fn.name))
+    return sorted(set(out))
+
+
+def extract_delete_field_pk_guard(repo):
+    """DeleteField.simulate: the test under which the deletion of a field is refused as "a primary key" """
+    tree = ast.parse(_src(repo, 'django_evolution/mutations/delete_field.py'))
+    cls = _find_class(tree, 'DeleteField')
+    fn = _find_func(cls, 'simulate')
+    tests = []
+    for n in ast.walk(fn):
+        if isinstance(n, ast.If) and any('primary key' in ast.unparse(b) for b in n.body):
+            tests.append(ast.unparse(n.test))
+    if len(tests) != 1:
+        raise ExtractError('DeleteField.simulate: expected one primary-key guard, found %d' % len(tests))
+    return tests[0]
+
+
 def extract_found_reset_per_label(repo):
     """get_app_mutations: the flag that says "an SQL file was found for this label" is set to False INSIDE the loop
     over the labels (once per label), so that a label without an SQL file falls back to its Python module whatever
@@ -1218,6 +1250,14 @@ def regenerate(repo, outdir):
     flags['found_reset_per_label'] = frl
     parts.append('/-- get_app_mutations forgets, for every label, whether an earlier label was shipped as an SQL file -/')
     parts.append('def foundResetPerLabel : Bool := ' + ('true' if frl else 'false'))
+    cvw = extract_current_version_without_alias(repo)
+    flags['current_version_without_alias'] = cvw
+    parts.append('/-- per-database library code that asks for the current version without naming the database -/')
+    parts.append('def currentVersionWithoutAlias : List String := ' + lean_list(lean_str(x) for x in cvw))
+    pkg = extract_delete_field_pk_guard(repo)
+    flags['delete_field_pk_guard'] = pkg
+    parts.append('/-- DeleteField.simulate refuses the deletion under this test -/')
+    parts.append('def deleteFieldPkGuard : String := ' + lean_str(pkg))
     msl = extract_meta_slots(repo)
     flags['meta_slots'] = msl
     parts.append('/-- the optimiser: per test on a ChangeMeta property, the tables it tests, writes and reads -/')
